@@ -1,6 +1,7 @@
 package main
 
 import (
+	"regexp"
 	"fmt"
 	"go/types"
 	"sort"
@@ -18,6 +19,7 @@ type Decls struct {
 	strConst map[string]string // literal -> symbol
 	strOrder []string
 	axioms   []string
+	specAxioms []string // axioms / lemmas of spec files: included in a script only when relevant to it
 	axSeen   map[string]bool
 	sorts    map[string]bool
 	boxed    map[Sort]bool
@@ -125,6 +127,19 @@ func (d *Decls) axiom(a string) {
 	d.axioms = append(d.axioms, a)
 }
 
+// specAxiom records an axiom or lemma of a spec file. It goes into a script only if every spec / pure-method function
+// it talks about also occurs in the rest of that script (relevance filter: quantified facts about unrelated
+// vocabulary only cost solver time).
+func (d *Decls) specAxiom(a string) {
+	if d.axSeen[a] {
+		return
+	}
+	d.axSeen[a] = true
+	d.specAxioms = append(d.specAxioms, a)
+}
+
+var specSymRe = regexp.MustCompile(`\b(sf_|pm_)[A-Za-z0-9_]+`)
+
 func (d *Decls) strLit(lit string) Term {
 	if lit == "" {
 		return "str_empty"
@@ -227,6 +242,34 @@ func (d *Decls) script(assumptions []Term, goal Term, comment string) string {
 	}
 	for _, a := range d.axioms {
 		fmt.Fprintf(&b, "(assert %s)\n", a)
+	}
+	if len(d.specAxioms) > 0 {
+		var rest strings.Builder
+		for _, a := range d.axioms {
+			rest.WriteString(a)
+			rest.WriteByte('\n')
+		}
+		for _, a := range assumptions {
+			rest.WriteString(a)
+			rest.WriteByte('\n')
+		}
+		rest.WriteString(goal)
+		used := map[string]bool{}
+		for _, m := range specSymRe.FindAllString(rest.String(), -1) {
+			used[m] = true
+		}
+		for _, a := range d.specAxioms {
+			ok := true
+			for _, m := range specSymRe.FindAllString(a, -1) {
+				if !used[m] {
+					ok = false
+					break
+				}
+			}
+			if ok {
+				fmt.Fprintf(&b, "(assert %s)\n", a)
+			}
+		}
 	}
 	for _, a := range assumptions {
 		if a == "true" {
